@@ -63,6 +63,8 @@ mod statistics;
 mod storage;
 #[cfg(any(test, feature = "test-utils"))]
 pub mod test_utils;
+#[cfg(feature = "verif-hooks")]
+pub mod verif;
 
 use std::borrow::Cow;
 use std::future::Future;
